@@ -222,3 +222,16 @@ package httpd
 //@   requires mux != nil && mux.maxParams >= 0 && mux.maxParams <= 72057594037927936
 //@   modifies nothing
 //@   ensures item: typeIs(result, *Store) && fresh(payload(result, *Store)) && storePI(payload(result, *Store))
+
+// ---- what handlers observe through Store (C04, C05): parameter lookups read the pair K/V of the current request ----
+//@ func (*Store).RouteParam
+//@   requires store != nil && store.P != nil && len(store.P.K) <= len(store.P.V)
+//@   modifies nothing
+//@   ensures hit: (exists i int {store.P.K[i]} :: 0 <= i && i < len(store.P.K) && store.P.K[i] == name) ==> exists j int {store.P.K[j]} :: 0 <= j && j < len(store.P.K) && store.P.K[j] == name && value == store.P.V[j]
+//@   ensures miss: (forall i int {store.P.K[i]} :: 0 <= i && i < len(store.P.K) ==> store.P.K[i] != name) ==> value == ""
+
+//@ func (*Store).RouteParamAny
+//@   requires store != nil && store.P != nil && len(store.P.K) <= len(store.P.V)
+//@   modifies nothing
+//@   ensures hit: (exists i int {store.P.K[i]} :: 0 <= i && i < len(store.P.K) && store.P.K[i] == routeParamAny) ==> exists j int {store.P.K[j]} :: 0 <= j && j < len(store.P.K) && store.P.K[j] == routeParamAny && result == store.P.V[j]
+//@   ensures miss: (forall i int {store.P.K[i]} :: 0 <= i && i < len(store.P.K) ==> store.P.K[i] != routeParamAny) ==> result == ""
